@@ -310,6 +310,31 @@ CHECKS["C13"] = dict(
                "TLC; real registered models evaluated on the enumerated "
                "inputs and validated by TLC (ModelContractTrace.tla)"))
 
+CHECKS["C20"] = dict(
+    engine="GroupMap", category="model_checking",
+    text=("GroupMap.tla: curves on grid pixels with a collapsed Curve.tla "
+          "status (none / fit values / failed) and a rating that is "
+          "remembered together with the fit state it was computed for; "
+          "GetMap(feature) = current value at every curve's pixel, NaN "
+          "elsewhere (TLC: MapIsCurrent, RatingShownIsCurrent). Trace "
+          "validation in the classic style: synthetic maps (shapes 1x1 .. "
+          "3x2, all scan-order permutations for <= 4 curves, serpentine / "
+          "column / random and partial maps otherwise) are written with "
+          "afmformats' HDF5 exporter, loaded through load_group / QMap, "
+          "and driven by random fits, refits with other settings, failing "
+          "fits, setting edits, re-preprocessing, ratings and get_qmap "
+          "calls; the recorded events drive the spec's state transformers "
+          "and every returned grid (Pa, nm, rating; DataMissingWarning) "
+          "must equal the spec's grid. Loading records: recorded jpk files, "
+          "synthetic files and a nested folder (count, file order, unique "
+          "enumerations, progress callbacks monotone in [0,1]); refusal of "
+          "curves with neither spring constant nor tip position, also when "
+          "they come second in a file or are appended after valid ones."),
+    design_ref="5 (C20), 3.3", note=TB,
+    technique=("TLA+ map design model-checked by TLC; recorded event traces "
+               "of real QMap objects replayed through the spec's state "
+               "transformers by TLC (GroupMapTrace.tla)"))
+
 NOT_APPLICABLE = {
     "C01": ("Recovery of ground-truth parameters to optimiser precision is "
             "numerical convergence of lmfit/MINPACK on real-valued data; it "
